@@ -32,6 +32,9 @@ pub fn read_filter_block(
     // The filter block is stored like any other block, followed by a compression type byte and a
     // checksum; verify it instead of trusting the raw bytes.
     let buf = read_block_contents(src, location)?;
+    if !FilterBlockReader::is_well_formed(&buf) {
+        return err(StatusCode::Corruption, "malformed filter block");
+    }
     Ok(FilterBlockReader::new_owned(policy, buf))
 }
 
